@@ -127,10 +127,10 @@ def loadedJ (l : Loaded) : Json :=
   Json.arr (l.map (fun (p : Nat × LObj) => Json.mkObj ([("id", (p.1 : Json)), ("cls", Json.str (hexOf p.2.cname))] ++ nodeJ p.2.node))).toArray
 
 /-- the observable log: `init`, `post` (with the parameters assigned to that object before), `exec`, `body`. -/
-def logJ (log : List Ev) : Json :=
+def logJ (log : List Ev) (withNew : Bool := false) : Json :=
   let rec go : List Ev → List (Nat × List Nat) → List Json → List Json
     | [], _, acc => acc.reverse
-    | .new _ :: r, sets, acc => go r sets acc
+    | .new n :: r, sets, acc => go r sets (if withNew then Json.arr #["new", (n : Json)] :: acc else acc)
     | .init n :: r, sets, acc => go r sets (Json.arr #["init", (n : Json)] :: acc)
     | .set n a :: r, sets, acc => go r ((n, a) :: sets) acc
     | .postInit n :: r, sets, acc =>
@@ -176,7 +176,7 @@ def stepJ (s : DSt) (j : Json) : DSt × Json :=
                     ("attrs", Json.arr attrs.toArray)])
   | "loadinst" =>
     let defs := serialize fl s.lib s.sg [natF j "root"]
-    (s, Json.mkObj [("log", logJ (if boolF j "body" then runLog defs else loadInstanceLog defs))])
+    (s, Json.mkObj [("log", logJ (if boolF j "body" then runLog defs else loadInstanceLog defs) (withNew := boolF j "new"))])
   | "generation2" =>
     (s, match reloadTwice fl s.lib s.sg roots with
       | .ok (l1, defs2, l2) =>
@@ -184,6 +184,16 @@ def stepJ (s : DSt) (j : Json) : DSt × Json :=
         let r := roots.headD 0
         Json.mkObj [("defs", Json.arr (defs2.map (defJ sg1)).toArray), ("objs", loadedJ l2),
                     ("id", hexOf (fullId hc (toGraph l2 s.sg.g.size) r)), ("orig", hexOf (fullId hc s.sg.g r))]
+      | .error e => errJ e)
+  | "loadstate" =>
+    -- a saved value with several roots loaded as runtime objects: `from_state_dict(state_dict(v), as_instance=True)`
+    let st := stateDict fl s.lib s.sg (valOf (fld j "v"))
+    (s, match fromStateDictInst st with
+      | .ok (attrs, v) =>
+        Json.mkObj [("log", logJ (loadStateLog st.1 st.2) (withNew := true)),
+                    ("attrs", Json.arr (attrs.map (fun (p : Nat × List (List Nat × Val)) =>
+                      Json.arr #[(p.1 : Json), Json.arr (p.2.map (fun f => Json.arr #[Json.str (hexOf f.1), valJ f.2])).toArray])).toArray),
+                    ("data", valJ v)]
       | .error e => errJ e)
   | "instvalues" =>
     (s, match instanceValues (serialize fl s.lib s.sg [natF j "root"]) with
